@@ -483,6 +483,8 @@ class Emitter(object):
                 args.append("msm::back::favor_compile_time")
             if v["queue"] == "circ":
                 args.append("msm::back::queue_container_circular")
+            if v["backend"] == "back11" and len(args) > 1:
+                args.insert(1, "void")      # back11: the second template parameter is the upper fsm
             w("typedef msmb::state_machine<%s > %s;" % (", ".join(args), be))
         if self.v["front"] in ("R", "R2"):
             self.emit_row_function_defs(M)
